@@ -14,6 +14,7 @@ import (
 	"testing"
 
 	"github.com/gagliardetto/solana-go"
+	"github.com/rpcpool/yellowstone-faithful/gsfa"
 	"github.com/rpcpool/yellowstone-faithful/zzverif/explore"
 	"github.com/rpcpool/yellowstone-faithful/zzverif/vkit"
 	"github.com/rpcpool/yellowstone-faithful/zzverif/vsched"
@@ -73,6 +74,22 @@ func c09Ops() []c09Op {
 		}},
 		{"getAllBucketteers", false, func(m *MultiEpoch) string { return fmt.Sprint(len(m.getAllBucketteers())) }},
 		{"getGsfaReadersDesc", false, func(m *MultiEpoch) string {
+			r, n := m.getGsfaReadersInEpochDescendingOrder()
+			return fmt.Sprint(len(r), n)
+		}},
+		{"getGsfaReadersWithTheirEpochs", false, func(m *MultiEpoch) string {
+			// (through an interface: the method is younger than the oldest tree this harness must compile against)
+			if g, ok := interface{}(m).(interface {
+				getGsfaReadersWithTheirEpochs() ([]*gsfa.GsfaReader, map[uint64]*Epoch)
+			}); ok {
+				r, owners := g.getGsfaReadersWithTheirEpochs()
+				var ns []uint64
+				for n := range owners {
+					ns = append(ns, n)
+				}
+				sort.Slice(ns, func(i, j int) bool { return ns[i] > ns[j] })
+				return fmt.Sprint(len(r), ns)
+			}
 			r, n := m.getGsfaReadersInEpochDescendingOrder()
 			return fmt.Sprint(len(r), n)
 		}},
@@ -366,6 +383,7 @@ var c09Covered = map[string]bool{
 	"ReplaceEpoch": true, "ReplaceOrAddEpoch": true, "HasEpochWithSameHashAsFile": true, "CountEpochs": true,
 	"GetEpochNumbers": true, "GetMostRecentAvailableEpoch": true, "GetOldestAvailableEpoch": true, "Close": true,
 	"getAllBucketteers": true, "getGsfaReadersInEpochDescendingOrder": true, "getGsfaReadersInEpochDescendingOrderForSlotRange": true,
+	"getGsfaReadersWithTheirEpochs": true,
 }
 
 func c09Scenarios(ops []c09Op) []c09Scenario {
